@@ -10,7 +10,10 @@ mod cfg;
 mod json;
 mod mon;
 mod mon_hist;
+mod mon_delay;
 mod mon_set;
+mod mon_simd;
+mod mon_thr;
 mod mon_stream;
 mod mon_warp;
 mod probe;
@@ -34,6 +37,9 @@ fn monitors() -> Vec<Box<dyn Monitor>> {
         Box::new(mon_twin::Prec),
         Box::new(mon_set::Setters),
         Box::new(mon_warp::Warp),
+        Box::new(mon_delay::Delay),
+        Box::new(mon_simd::Simd),
+        Box::new(mon_thr::Threads),
         Box::new(mon_stream::Chunking),
         Box::new(mon_stream::Acct),
         Box::new(mon_stream::Poly),
